@@ -189,6 +189,10 @@ def _worker(job):
         if job.opts.get('monitor_alloc'):
             ex.monitor_alloc = True
             ex.escape_lines = _ESCAPES
+        if job.opts.get('scanvalue'):
+            from gosym.glue import Glue
+            gl = Glue(ses)
+            ex.hooks[FP + '.vAssertScanValue'] = gl.h_assert_scan
         if job.opts.get('slowpath'):
             ses.use_slowpath()
         if job.opts.get('glue'):
